@@ -201,10 +201,15 @@ def run_kserve(chk, tier):
                              "handler_selector": None if not o["gh"] or o["gh"].get("hsel") is None else "".join(map(chr, o["gh"]["hsel"])),
                              "reply_latin1": o["out"][:300], "exception": o["exc"],
                              "log": ["".join(map(chr, l))[:200] for l in o["log"][:3]]}}
+            if o.get("skipped") or o.get("timeout"):
+                note = o["exc"]        # a request the implementation did not answer in time: reported, never waited for
             if note:
                 harness_notes.append(dict(info, note=note))
+            if o.get("skipped"):
+                continue
             # model-independent: a climber in the percent-decoded selector must never reach a handler that touches files
-            if hostile and proto != "raw" and layers == 1 and kind == "chosen" and name != "HTMLURLHandler":
+            # (selectors that start with "/" only: without it a Gemini URL has no path at all; URL: selectors belong to the redirector)
+            if hostile and proto != "raw" and layers == 1 and s.startswith("/") and "URL:" not in s and kind == "chosen":
                 climber_reached.append(info)
             if lit is None:
                 continue
